@@ -1,5 +1,6 @@
 import Amgcl.Driver.Util
 import Amgcl.Model.Amg
+import Amgcl.Model.CoarseningPolicy
 /-!
 handlers for the hierarchy ops (C03):
   amg_build   kind s nt coarse_enough direct_coarse max_levels allow_rebuild A L (P R)^L
@@ -80,8 +81,20 @@ def showErr : BuildErr → String
 def hdrOk (h : Hdr) : Bool :=
   h.A.wfb && h.kind ≤ 3 && h.nt ≥ 1 && h.prm.max_levels ≥ 1 && h.prs.all (fun pr => pr.1.wfb && pr.2.wfb)
 
+/-- END-TO-END policy: the transfer operators come from the coarsening MODELS of C04 (plain / smoothed aggregation
+with the library's default parameters eps_strong = 0.08f, relax = 1.0f), not from a recording -/
+def policyFull (h : Hdr) (epsStrong relax : Rat) : Policy Rat :=
+  let p : ParamGlue.CoarseningParamsQ := { epsStrong := epsStrong, blockSize := 1, relax := relax }
+  { transfer := Coarsening.toPolicyTransfer (if h.kind = 0 then Coarsening.transferAggregation p else Coarsening.transferSmoothedAggregation p),
+    coarseOp := if h.kind = 0 then scaledGalerkin h.nt h.s else galerkin h.nt }
+
 def handle (op : String) (args : List String) : Option String :=
   match op with
+  | "amg_full" => withArgs (do let h ← pHdr; let e ← pRat; let r ← pRat; pure (h, e, r)) args fun (h, e, r) =>
+      if !hdrOk h || h.kind > 1 || !h.prs.isEmpty then badInput else
+      match build h.prm (policyFull h e r) dummySm nonsingular h.A with
+      | .ok ls => showLevels ls
+      | .error e => showErr e
   | "amg_build" => withArgs pHdr args fun h =>
       if !hdrOk h then badInput else
       match build h.prm (policy h) dummySm nonsingular h.A with
